@@ -34,12 +34,31 @@ from vplib import sexpr, testsrc
 from vplib.common import VERIF, REPO
 from vplib.props import c02gen
 
+READINGS = (
+    "Modelling decisions of the reference evaluator (coq/theories/lang/Lang.v header) and what settles each: "
+    "R1 `p = chain` is the in-chain match `chain =p` evaluating to Ok/[] — docs/spec.md l.303-305 (Pattern matching: 'Patterns can appear before a chain (x = ...) or within a chain (... =x)', 'A match evaluates to Ok if it succeeds and nil if it fails'). "
+    "R2 a full tuple pattern is exact on name, arity and every label — spec l.49-60 (Tuple types: name and field names are part of the type) and quiver-tests/tests/assignment.rs:24-29; the loose examples l.323 and l.336 were ruled 'resolved ambiguity: spec example vs spec text/tests' by the coordinator. "
+    "R3 after a FAILED match the pattern's binders are in scope and hold nil — spec l.303 ('any variables the pattern binds are in scope afterwards', silent on their value); settled by /verif/hooks/fix_F64.msg ('stores nil for a name it does not bind - the value a binder has after a failed match as well'). "
+    "R4 a repeated binder inside one pattern is an equality test; an identifier bound earlier is re-bound; a pin reads the outer scope — spec l.844-846 (example `=[Cons[value, _], value]`), l.367 ('Identifiers in patterns bind by default'), l.345-357 (References). "
+    "R5 a consequence starts from the BLOCK's input with the condition's bindings in scope — spec l.400 ('each branch starts from the block's parameter'), l.445 (`{ =Square[x] [x, 10] num.gt? => ... }`), quiver-tests/tests/branches.rs test_consequence_ripple_is_block_parameter_not_condition_result. "
+    "R6 each branch is evaluated in the scope the block was entered with — spec l.408 ('a branch's bindings are likewise local to the block'); the slot discipline behind it was repaired by fix F73 (7ce1312). "
+    "R7 tuple fields and string holes receive the flowing value left to right; a field's bindings persist, a hole is a scope — spec l.236-238 (fields receive their own copy), l.173-176 ('Each hole is parsed like a block body'), l.400 (a block introduces a scope). "
+    "R8 'callable variables are called', decided dynamically for identifiers, `$`-accesses, import members and builtins; `~` and a postfix `.x` only select — spec l.226-231, l.497 (`$` is the parameter), l.553-558 ('no bare ripple application'); for fields of a tuple that contains a spread: fix F75 (5ce1e95). "
+    "R9 `^`, `^f`, `^~` hand the rest of the enclosing function's evaluation to the callee — spec l.560-596 (Tail recursion). "
+    "R10 `#{..}` without a parameter type is nilary; a context-inferred parameter is outside the fragment — spec l.489-495. "
+    "R11 a program is ONE sequence, type aliases are transparent — spec l.210-212. "
+    "R12 equality is structural on (name, labels, fields); comparing functions is outside the fragment — spec l.331-343, l.345-357; quiver-tests/tests/equality.rs; C13's theorem values_equal_structural. "
+    "R13 builtins: mathematical integers / byte strings, truncating division, sign-of-dividend modulo — spec l.795-802 names them only; semantics = quiver-core/src/builtins/integer.rs as proved against reference specs by C12. "
+    "R14 type patterns: structural membership, `^` = root of the alias, generic aliases by substitution — spec l.359-365, l.73-141 (Type aliases, Parameterised, Union, Intersection, Recursive types). "
+    "R15 an unnamed `*` over a union of differently-labelled tuples brings every label into scope, absent ones nil — spec l.326 ('Star (all named fields)') is silent about unions; settled by /verif/hooks/fix_F64.msg. "
+    "Re-binding a name uses the new binding's value and type (spec l.307-315, l.367): fixes F53 (07dd2af, /verif/hooks/fix_F53.msg) and F76 (d92f466).")
+
 MANIFEST = dict(
     category="proof",
-    text="partial. Coq theorems about the reference evaluator Lang.eval (fuelled big-step semantics of the core sequential language written from docs/spec.md): eval_fuel_mono (a finished result is stable under more fuel, for every judgement of the evaluator: the semantics is a partial function), chain_infallible, sequence_short_circuit, branch_fallthrough, consequence_commits, match_verdict (a match is Ok or []; on success the scope grows by the pattern's bindings, on failure by its static binders all nil), match_binds_only_binders, pmatch_extends, bare_binder_always_succeeds, block_scoping, closure_captures_by_value. normalize_preserves_eval is NOT attempted (Simplify.v is over Ast.v whose patterns/types are opaque; the evaluator has its own AST). NOT a theorem: that the Rust compiler's bytecode computes eval (no model of compiler.rs) — the statement compile_correct is kept as a comment in props/C02.v. That link is validated by differential execution: the real parser's AST is evaluated by the extracted evaluator and compared with real compile+run on test-suite sources (with the suite's expected strings as a third oracle), the spec's examples with their documented results, corpus probes and type-directed generated programs accepted by the real compiler.",
+    text="partial. Coq theorems (props/C02.v, 20, all closed under the global context) about the reference evaluator Lang.eval — a big-step semantics of the core sequential language written from docs/spec.md, structurally recursive on the AST with fuel consumed only by function calls and imports: eval_fuel_mono / eval_program_fuel_mono / fuel_mono_all_judgements / eval_deterministic (a finished result is stable under more fuel: the semantics is a partial function), chain_infallible, sequence_short_circuit, branch_fallthrough, consequence_commits, match_verdict (Ok/[]; on success the scope grows by the pattern's bindings, on failure by its binders all nil), match_binds_only_binders, pmatch_extends, bare_binder_always_succeeds, block_scoping, closure_captures_by_value; and normalize_preserves_eval (+ splice_noop, lift_noop, normalize_preserves_value, normalize_preserves_termination, call_import_norm): simplify.rs's normalize_blocks with the compiler's options, modelled in lang/LangSimplify.v, preserves the outcome of every program at every fuel, up to the event counters and to normalising the bodies of function values in the result. A compiler-correctness slice (props/C02.v section 'compile slice', lang/LangCompile*.v) relates the evaluator to the VM model vm/Vm.v for a small fragment. NOT a theorem: that the Rust compiler's bytecode computes eval for the whole language (no model of compiler.rs) — `compile_correct` is kept as a comment in props/C02.v. That link is validated by differential execution: the real parser's AST is evaluated by the extracted evaluator and compared with real compile+run on test-suite sources (with the suite's expected strings as a third oracle), the spec's examples with their documented results, corpus probes (must-pass) and type-directed generated programs accepted by the real compiler; the model of simplify.rs is compared with the real normalize_blocks on the same sources and std/*.qv. " + READINGS,
     design_ref="§5 C02",
-    note="Trusted: Coq kernel, extraction (ExtrOcamlBasic), OCaml driver (AST reader, atom interning), Rust harness qv_ast (AST dumper) and qvh::eval_source, Python differ/generator/shrinker. Out of the modelled fragment (reported as `unsupported`, counted): processes/select/spawn/send/self, resources/IO, refs, builtins other than integer add/subtract/multiply/divide/modulo/gcd/compare/abs/sqrt and binary concat/length, function/process/module types and type spreads inside type patterns, `^n` (n>0), context-inferred parameters of `#{..}` literals. Where static typing decides what the spec words dynamically (a variable whose type mixes callables and non-callables, type variables) the generator avoids the construct. The generator also avoids the known typing defects F13/F27 (C20/C01) and the shapes of the C02 findings this check produced or routes (F53c02 re-binding a name with a recorded narrowing, F64c02 unnamed star over a union of differently-labelled tuples, F73 misaligned locals after a failed branch, F75 callable field of a tuple containing a spread); all five are repaired in /repo and their reproducers are must-pass regression probes in corpus/c02_probes.txt; signature routing stays table-driven by known_findings.json.",
-    technique="Coq proof (laws of the reference semantics) + differential execution of the extracted evaluator on the real parser's AST against the real compiler+VM, 3-way with the test-suite's expected values",
+    note="Trusted: Coq kernel, extraction (ExtrOcamlBasic), OCaml driver (AST reader, atom interning), Rust harness qv_ast (AST dumper, --norm) and qvh::eval_source, Python differ/generator/shrinker. Out of the modelled fragment (reported as `unsupported`, counted): processes/select/spawn/send/self, resources/IO, refs, builtins other than integer add/subtract/multiply/divide/modulo/gcd/compare/abs/sqrt and binary concat/length, function/process/module types and type spreads inside type patterns, `^n` (n>0), context-inferred parameters of `#{..}` literals. Where static typing decides what the spec words dynamically (a variable whose type mixes callables and non-callables, type variables) the generator avoids the construct. The generator also avoids the known typing defects F13/F27 (C20/C01). Findings this check produced (F53c02, F64c02, F75, F76) or routed (F73) are repaired in /repo; their reproducers are must-pass regression probes in corpus/c02_probes.txt; signature routing stays table-driven by known_findings.json. LangSimplify.v models normalize_blocks for the compiler's options only (the formatter's `keep` closure and `group_consequences` are C17's, over Simplify.v).",
+    technique="Coq proof (laws of the reference semantics; normalisation preserves it) + differential execution of the extracted evaluator on the real parser's AST against the real compiler+VM, 3-way with the test-suite's expected values; model-vs-code correspondence of the normalisation",
 )
 
 FUEL_SUITE = 400000       # the suite has 100000-iteration tail loops
@@ -486,6 +505,76 @@ def run(ctx):
         for c, r in zip(sel, R.both([c[2] for c in sel], fuel)):
             results[(c[0], c[1])] = (c, r)
 
+    # ---------------------------------------------------------------- model of simplify.rs vs the real normalize_blocks
+    # (correspondence of coq/theories/lang/LangSimplify.v, about which C02_normalize_preserves_eval speaks):
+    # the real parser's AST before/after the real normalize_blocks (compiler options); the extracted
+    # `normalize` must map one to the other.  Sources: everything above plus std/*.qv.
+    norm_srcs = [c[2] for c in cases] + [src for _, src in testsrc.qv_files()]
+    _, nd = ctx.run_sharded(qa, [q(x) for x in norm_srcs], args=["--norm"], timeout=1500)
+    _, nm = ctx.run_sharded(drv, nd, args=["--norm"], timeout=1500)
+    norm_cnt = collections.Counter()
+    norm_changed = 0
+    for src, dline, mline in zip(norm_srcs, nd, nm):
+        key = mline if mline.startswith("(norm") else ("parse-error" if "parse-error" in mline else mline.split()[0])
+        norm_cnt[key] += 1
+        if mline == "(norm ok)":
+            try:
+                parsed = sexpr.parse(dline)
+                if parsed[1] != parsed[2]:
+                    norm_changed += 1
+            except Exception:
+                pass
+        if mline.startswith("(norm diff") or mline.startswith("(driver-error") or dline.startswith("(panic"):
+            ctx.violation({"kind": "correspondence-broken", "correspondence": "LangSimplify.normalize vs simplify::normalize_blocks",
+                           "what": mline, "source": src,
+                           "replay": "printf '%s\\n' " + repr(q(src)) + " | .cache/cargo-target/debug/qv_ast --norm"},
+                          no_input=True)
+    ctx.cov["normalize_model_vs_real"] = dict(norm_cnt)
+    ctx.cov["normalize_real_changed_the_ast"] = norm_changed
+
+    # ---------------------------------------------------------------- compile slice: the mirror vs real bytecode
+    # (correspondence of coq/theories/lang/LangCompile.v, about which C02_compile_program_correct speaks):
+    # for programs of the fragment the extracted `compile_program (normalize p)` must emit exactly the
+    # instructions of the entry function the real compiler emits (`qv_ast --code`; constant indices and
+    # tuple ids resolved to the constant / the (name, labels) shape on both sides).
+    fstats = {}
+    nfrag = ctx.n(500, 6000)
+    frag = [c02gen.fragment_program(ctx.rng, fstats) for _ in range(nfrag)]
+    frag_generated = set(frag)
+    code_diffs = []
+    frag += [c[2] for c in cases if c[0] in ("corpus", "suite")]        # whatever of these is in the fragment
+    _, fd = ctx.run_sharded(qa, [q(x) for x in frag], args=["--code"], timeout=1500)
+    _, fm = ctx.run_sharded(drv, fd, args=["--compile"], timeout=1500)
+    code_cnt = collections.Counter()
+    code_instrs = 0
+    for src, dline, mline in zip(frag, fd, fm):
+        real = dline.partition("\t")[2]
+        if not real.startswith("(code"):
+            code_cnt["real-" + (real.split()[0].strip("()") if real else "no-output")] += 1
+            continue
+        if mline == "(not-in-fragment)":
+            code_cnt["not-in-fragment"] += 1
+        elif mline == real:
+            code_cnt["same-code"] += 1
+            code_instrs += real.count("(") - 1
+        elif mline.startswith("(code") and src not in frag_generated:
+            # a corpus / test-suite source: the one known unmirrored behaviour is that the real
+            # compiler drops the steps after a STATICALLY nil step; recorded, not a violation
+            code_cnt["different-code-in-suite-source"] += 1
+            code_diffs.append({"source": src, "real": real, "mirror": mline})
+        elif mline.startswith("(code"):
+            code_cnt["DIFFERENT-CODE"] += 1
+            ctx.violation({"kind": "correspondence-broken", "correspondence": "LangCompile.compile_program vs compiler.rs codegen",
+                           "source": src, "real": real, "mirror": mline,
+                           "what": "the compile mirror and the real compiler emit different code for a program of the fragment"},
+                          no_input=True)
+        else:
+            code_cnt[mline.split()[0].strip("()")] += 1
+    ctx.cov["compile_mirror_vs_real_bytecode"] = dict(code_cnt)
+    ctx.cov["compile_mirror_instructions_compared"] = code_instrs
+    ctx.cov["compile_mirror_differences_in_suite_sources"] = code_diffs[:10]
+    ctx.cov["compile_fragment_generator_features"] = dict(sorted(fstats.items()))
+
     # ---------------------------------------------------------------- compare
     per_origin = collections.defaultdict(collections.Counter)
     unsupported = collections.Counter()
@@ -598,7 +687,7 @@ def run(ctx):
                                        "rejected_by_real_compiler_or_parser": tot["rejected-by-compiler"] + tot["parse-error"],
                                        "no_executable_code": tot["no-executable-code"]}
     cov["unsupported_by_reason"] = dict(unsupported.most_common())
-    cov["traces_validated_against_impl"] = compared
+    cov["traces_validated_against_impl"] = compared + norm_cnt["(norm ok)"] + code_cnt["same-code"]
     cov["disagreements_checked"] = compared
     cov["disagreements"] = tot["DISAGREE"]
     cov["disagreements_matching_a_known_finding"] = dict(known_hits)
